@@ -145,3 +145,13 @@ prop(
     level_text="For every ordered pair of the five state-changing operations and every internal write boundary of the first, started from a prepared mid-sync state (scripts registered, filter batch due, matched blocks pending with one block outstanding), the outcome equals one of the two serial outcomes and both threads finish; whether the second operation could run while the first was parked (i.e. whether the global lock was held at that boundary) is recorded per cell.",
     level_note="fork rollback is not among the paired operations (it needs a multi-message reorg proof; its lock scope is exercised single-threaded by C04) and reader snapshot consistency (db.snapshot in get_cells / get_cells_capacity) is not judged: a mutant that removes a snapshot is out of reach of this check; schedules inside one RocksDB call are not controlled",
 )
+
+prop(
+    "C16", "exploration",
+    rule="one evaluation = one status returned by fetch_header / fetch_transaction (judged as an edge of the status automaton against the previous status of the same hash, and against the missing reports of honest peers), "
+         "one committed (transaction, block hash) pairing, or one bounded-progress judgement; a cell = (kind, status edge, disturbance mode) / final status class",
+    sizes=tiers(16, 40, 60, 16, 2500, 900, min_evals=3000, min_cells=20),
+    technique="runtime monitoring: offline status-automaton checker over the RPC call/return trace, ground-truth lookup (transaction -> containing block), missing-report bookkeeping at the peer boundary, bounded-progress oracle",
+    level_text="In generated histories (existing and non-existing headers / transactions, 1-3 proven peers, fetch ticks with real or fast timer periods, serving peer answering invalidly, not answering until the timeout, or disconnecting before the answer) every status sequence is a path added -> fetching(first_sent constant) -> fetched | not_found -> added ..., not_found appears only after a valid missing report, an existing item is fetched within 45 rounds while an honest proven peer is connected, and every committed answer names a stored header whose block contains the transaction.",
+    level_note="'never lost' is restated as bounded progress (45 rounds; 110 for the timeout mode); fork-switch re-pointing of a stored transaction is exercised by C04's fetch_tx scenarios",
+)
